@@ -80,6 +80,17 @@ def download(client_kind, maxlen):
             if MODE.trace is not None:
                 note("publishing raised", repr(e))
             return verdict(False, "publishing a BLOB raised")
+        # a second publication: same or different bytes, ANOTHER format -- what the
+        # client holds afterwards is the second BLOB
+        if d.bool("publish-again"):
+            n2 = n if d.bool("same-bytes") else (n + 1) % (maxlen + 1)
+            payload = FILLER[:n2]
+            n = n2
+            fmt = fmt + ".2"
+            try:
+                drv.main.img.blb.value = values.BLOB(payload, fmt)
+            except Exception:
+                return verdict(False, "publishing a BLOB raised")
         el = client["CAM"]["IMG"]["BLB"]
         v = el.value
         if MODE.trace is not None:
@@ -208,7 +219,7 @@ def conditions(tier):
     thorough = tier == "thorough"
     N = 16 if thorough else 8
     for kind in ("library", "single"):
-        out.append(Condition(f"download/{kind}", make_condition(download(kind, N), 1, 2, 0),
+        out.append(Condition(f"download/{kind}", make_condition(download(kind, N), 1, 2, 2),
                              about=f"driver publishes a BLOB of symbolic length/format; {kind} client", encodes=ENC,
                              bounds=f"length 0..{N}", timeout=900))
         out.append(Condition(f"upload/{kind}", make_condition(upload(kind, N), 1, 1, 0),
